@@ -572,7 +572,29 @@ func c03cap(c *Ctx) {
 			ok2 := len(edges) > 0 && facts.PassesAny(mu.Block(), nil, edges...)
 			R.Check("C03.cap", key, c.rel(p.Pos(mu.Pos())), fmt.Sprintf("inner heartbeat map insert happens only into a fresh map or when len < MaxNodesPerGuardian (%d)", maxV), ok2 && f.Name() == "SetHeartbeat",
 				fmt.Sprintf("guard edges: %v", descr))
-			// held under the mutex: delegated to lock discipline of SetHeartbeat (defer Unlock at entry)
+			// check and insert form one critical section: the mutex guarding the table is held at
+			// the insert, and no Unlock of it lies between a guard edge and the insert (a window
+			// there lets two concurrent calls both pass the cap test and both insert)
+			muF := p.FieldOf(pkgCommon, "GuardianSetState", "mu")
+			if muF != nil {
+				held := lockState(f, muF, false)[mu]
+				window := ""
+				eachInstr(f, func(j ssa.Instruction) {
+					cl, isCall := j.(*ssa.Call)
+					if !isCall || cl.Call.StaticCallee() == nil || cl.Call.StaticCallee().Name() != "Unlock" || len(cl.Call.Args) == 0 || fieldOfAddr(cl.Call.Args[0]) != muF {
+						return
+					}
+					// reachable from a guard edge's block, and the insert reachable from it?
+					for _, e := range edges {
+						gb := f.Blocks[e.B]
+						if blockReaches(gb, cl.Block()) && blockReaches(cl.Block(), mu.Block()) {
+							window = c.rel(p.Pos(cl.Pos()))
+						}
+					}
+				})
+				R.Check("C03.cap", R.Key("C03.cap", shortFn(f), "atomic-check-and-insert"), c.rel(p.Pos(mu.Pos())), "the cap test and the insert happen in one critical section of GuardianSetState.mu", held && window == "",
+					fmt.Sprintf("mutex held at the insert: %v; Unlock between the cap test and the insert at %q", held, window))
+			}
 		})
 	}
 	R.Floor("C03.cap", n, 1)
@@ -599,4 +621,23 @@ func stripExtract(v ssa.Value) ssa.Value {
 		return ex
 	}
 	return v
+}
+
+// blockReaches: b is reachable from a (a == b counts).
+func blockReaches(a, b *ssa.BasicBlock) bool {
+	seen := map[*ssa.BasicBlock]bool{}
+	st := []*ssa.BasicBlock{a}
+	for len(st) > 0 {
+		x := st[len(st)-1]
+		st = st[:len(st)-1]
+		if x == b {
+			return true
+		}
+		if seen[x] {
+			continue
+		}
+		seen[x] = true
+		st = append(st, x.Succs...)
+	}
+	return false
 }
